@@ -23,8 +23,9 @@ pub fn read_fs(r: &mut Rd, n: usize) -> Vec<f64> {
 }
 /// HOW the encoded numbers are constructed (environment variable RL_PRESENT, read once):
 ///   0 (default)  Dual::try_new / Dual2::try_new
-///   1            T::try_new_from(&other, ..) where `other` lists the same names ROTATED by one place (two or more names) -
+///   1            T::try_new_from(&other, ..) where `other` lists the same names in ANOTHER ORDER (the first two exchanged, the last kept; two names: swapped) -
 ///                the sibling constructor behind the Python `vars_from`; by name it is the same number
+///   2            as 0, and the binary operators of the Number container (dual op 12) get operands that SHARE one variable list
 pub fn present() -> u8 {
     static P: std::sync::OnceLock<u8> = std::sync::OnceLock::new();
     *P.get_or_init(|| std::env::var("RL_PRESENT").ok().and_then(|s| s.parse().ok()).unwrap_or(0))
@@ -36,7 +37,9 @@ fn rotated(vars: &[String]) -> Vec<String> {
             seen.push(v.clone());
         }
     }
-    if seen.len() >= 2 {
+    if seen.len() >= 3 {
+        seen.swap(0, 1); // another order with the LAST name kept in place
+    } else if seen.len() == 2 {
         seen.rotate_left(1);
     }
     seen
